@@ -69,7 +69,7 @@ CHECKS = {
                   'positional path x observers) on real objects, plus an exhaustive read-then-write sweep over every leaf path of '
                   'the segments of a version; oracle: before/after equality for reads, reference encoding + "new nodes form one path" for writes',
         text='9 roots (empty and parsed Message, STRICT Message, empty / parsed / STRICT Segment, Z-segment, empty and parsed '
-             'Field); ~90 operations per root (11 chains x 6 observers: len, iteration, repr, empty slice, bool, repeated; root '
+             'Field); ~60 operations per root (13 chains x 2 observers: len+iteration+repr+empty slice+bool in one, and the chain walked twice; root '
              'to_er7 / validate / children; writes by assignment, .value and datatype object at the end of each chain); all '
              'histories to depth 3 (thorough 4). A read must leave encoding, recursive listing and validation report identical; '
              'a write must produce the reference encoding of old content + value at that position and the newly listed elements '
